@@ -101,22 +101,57 @@ def d2Seg (p : HPt) (s : Seg) : Q :=
   else if t ≥ l * p.w then d2Pt p s.q
   else let d := detH s.p s.q p; ⟨d * d, l * (p.w * p.w)⟩
 
-/-- squared perpendicular distance to `s` when the foot of the perpendicular lies on `s` -/
-def d2Slab (p : HPt) (s : Seg) : Option Q :=
+/-- which side(s) of a directed segment the ideal buffer extends to -/
+inductive Side where | both | left | right
+deriving DecidableEq, Repr
+
+def Side.opp : Side → Side
+  | .both => .both | .left => .right | .right => .left
+
+/-- is the (homogeneous) point on an admitted side of the directed segment (on the line counts)? -/
+def Side.admits (sd : Side) (a b : Pt) (p : HPt) : Bool :=
+  match sd with
+  | .both => true
+  | .left => decide (detH a b p ≥ 0)
+  | .right => decide (detH a b p ≤ 0)
+
+/-- squared perpendicular distance to `s` when the foot of the perpendicular lies on `s`, at least `√m2` away from
+both end points (`shrink = true`, used for must-contain claims) or at most `√m2` beyond them (`shrink = false`,
+used for must-exclude claims).  The margin keeps claims away from the knife edge of a flat cap. -/
+def d2Slab (p : HPt) (s : Seg) (m2 : Q) (shrink : Bool) : Option Q :=
   let l := s.sqLen
   if l == 0 then none else
-  let t := dotH s.p s.q p
-  if t < 0 || t > l * p.w then none
-  else let d := detH s.p s.q p; some ⟨d * d, l * (p.w * p.w)⟩
+  let t := dotH s.p s.q p            -- w·along·√l
+  let t' := l * p.w - t
+  let lim := m2.n * l * (p.w * p.w)  -- compare  t²·m2.d  with  m2.n·l·w²
+  let far (u : Int) : Bool := decide (u ≥ 0) && decide (u * u * m2.d ≥ lim)        -- at least the margin inside
+  let near (u : Int) : Bool := decide (u ≥ 0) || decide (u * u * m2.d ≤ lim)       -- at most the margin outside
+  let ok := if shrink then far t && far t' else near t && near t'
+  if ok then let d := detH s.p s.q p; some ⟨d * d, l * (p.w * p.w)⟩ else none
 
 /-! ### features of an input under a configuration -/
 
+/-- a segment with the side(s) on which the offset curve is generated -/
+structure SSeg where
+  s : Seg
+  side : Side
+deriving Repr
+
+/-- a circular sector of the ideal buffer: centre `v`, all `p` with `(p − v)·h ≥ 0` for every `h` in `hs` -/
+structure Wedge where
+  v : Pt
+  hs : List Pt
+deriving Repr
+
+def Wedge.has (w : Wedge) (p : HPt) : Bool :=
+  w.hs.all fun h => decide ((p.x - w.v.x * p.w) * h.x + (p.y - w.v.y * p.w) * h.y ≥ 0)
+
 structure Feat where
-  segs : List Seg := []
+  segs : List SSeg := []
   /-- every vertex of the input (for the plain distance) -/
   verts : List Pt := []
-  /-- vertices around which the ideal buffer contains the full disc of radius `d` -/
-  discV : List Pt := []
+  /-- sectors of radius `d` the ideal buffer contains: outside of round joins, round / square caps, points -/
+  wedges : List Wedge := []
   /-- vertices at which a join is built (it stays within `fJoin·d` of the vertex) -/
   joinV : List Pt := []
   /-- open line ends and points whose cap stays within `fCap·d` of the vertex (none for flat caps) -/
@@ -129,15 +164,42 @@ def dedupAdj : List Pt → List Pt
   | l => l
 
 def Feat.append (a b : Feat) : Feat :=
-  ⟨a.segs ++ b.segs, a.verts ++ b.verts, a.discV ++ b.discV, a.joinV ++ b.joinV, a.capV ++ b.capV, a.polys ++ b.polys⟩
+  ⟨a.segs ++ b.segs, a.verts ++ b.verts, a.wedges ++ b.wedges, a.joinV ++ b.joinV, a.capV ++ b.capV, a.polys ++ b.polys⟩
+
+def vsub (a b : Pt) : Pt := ⟨a.x - b.x, a.y - b.y⟩
 
 def featPoint (cap : Cap) (p : Pt) : Feat :=
   let on := cap == .round || cap == .square
-  { verts := [p], discV := if on then [p] else [], capV := if on then [p] else [] }
+  { verts := [p], wedges := if on then [⟨p, []⟩] else [], capV := if on then [p] else [] }
 
-def featRing (join : Join) (r : List Pt) : Feat :=
+/-- the join sectors of consecutive vertex triples `u, v, w`: outside of the turn at `v` -/
+def joinWedges : List Pt → List Wedge
+  | u :: v :: w :: r => ⟨v, [vsub v u, vsub v w]⟩ :: joinWedges (v :: w :: r)
+  | _ => []
+
+/-- a closed ring (first = last, repeated points removed): the sectors at every vertex, cyclically -/
+def ringWedges (r : List Pt) : List Wedge :=
+  match r with
+  | _ :: second :: _ => joinWedges (r ++ [second])
+  | _ => []
+
+/-- `side`: where the offset curve of this ring is generated -/
+def featRingSided (join : Join) (side : Side) (r : List Pt) : Feat :=
   let r := dedupAdj r
-  { segs := segsOf r, verts := r, discV := if join == .round then r else [], joinV := r }
+  { segs := (segsOf r).map (⟨·, side⟩), verts := r, wedges := if join == .round then ringWedges r else [], joinV := r }
+
+/-- side of a polygon ring on which the polygon's interior lies -/
+def interiorSide (isHole : Bool) (r : List Pt) : Side :=
+  let ccw := area2 r > 0
+  if ccw != isHole then .left else .right
+
+/-- rings of one polygon (shell first); `outward = true`: offset away from the interior (positive distance) -/
+def featPolygon (join : Join) (outward : Bool) (rings : List (List Pt)) : Feat :=
+  match rings with
+  | [] => {}
+  | shell :: holes =>
+    let sd (isHole : Bool) (r : List Pt) : Side := if outward then (interiorSide isHole r).opp else interiorSide isHole r
+    holes.foldl (fun acc h => acc.append (featRingSided join (sd true h) h)) (featRingSided join (sd false shell) shell)
 
 /-- `BufferCurveSetBuilder::addLineString`: repeated points removed; a closed line of ≥ 4 points is offset as a
 ring (no caps) unless the buffer is single-sided; a line that collapses to one point is buffered as a point -/
@@ -148,45 +210,49 @@ def featLine (cap : Cap) (join : Join) (singleSided : Bool) (l : List Pt) : Feat
   | [p] => featPoint cap p
   | first :: rest =>
     let last := rest.getLast?.getD first
-    if l.length ≥ 4 && first == last && !singleSided then featRing join l
+    if l.length ≥ 4 && first == last && !singleSided then featRingSided join .both l
     else
       let inner := rest.dropLast
       let ends := [first, last]
       let capOn := cap == .round || cap == .square
-      { segs := segsOf l, verts := l,
-        discV := (if join == .round then inner else []) ++ (if capOn then ends else []),
+      let second := rest.head?.getD first
+      let penult := (l.dropLast).getLast?.getD last
+      { segs := (segsOf l).map (⟨·, .both⟩), verts := l,
+        wedges := (if join == .round then joinWedges l else []) ++
+                  (if capOn then [⟨first, [vsub first second]⟩, ⟨last, [vsub last penult]⟩] else []),
         joinV := inner, capV := if capOn then ends else [] }
 
 def featOf (cap : Cap) (join : Join) (singleSided : Bool) (f : Flat) : Feat :=
   let a := f.pts.foldl (fun acc p => acc.append (featPoint cap p)) ({} : Feat)
   let b := f.lines.foldl (fun acc l => acc.append (featLine cap join singleSided l)) a
-  let c := f.polys.foldl (fun acc rings => rings.foldl (fun acc r => acc.append (featRing join r)) acc) b
+  let c := f.polys.foldl (fun acc rings => acc.append (featPolygon join true rings)) b
   { c with polys := f.polys }
 
-/-- only the polygons (negative and zero distances ignore points and lines) -/
+/-- only the polygons, offset towards the interior (negative and zero distances ignore points and lines) -/
 def featPolys (join : Join) (f : Flat) : Feat :=
-  let c := f.polys.foldl (fun acc rings => rings.foldl (fun acc r => acc.append (featRing join r)) acc) ({} : Feat)
+  let c := f.polys.foldl (fun acc rings => acc.append (featPolygon join false rings)) ({} : Feat)
   { c with polys := f.polys }
 
 /-! ### the clauses -/
 
 def Feat.inside (F : Feat) (p : HPt) : Bool := F.polys.any (inPolyH p)
-def Feat.onBoundary (F : Feat) (p : HPt) : Bool := F.segs.any fun s => onSegH s.p s.q p
+def Feat.onBoundary (F : Feat) (p : HPt) : Bool := F.segs.any fun s => onSegH s.s.p s.s.q p
 
 /-- some feature of the ideal buffer of radius `√r2` covers `p` -/
-def Feat.covered (F : Feat) (p : HPt) (r2 : Q) : Bool :=
-  (F.segs.any fun s => match d2Slab p s with | some d => d.le r2 | none => false) ||
-  (F.discV.any fun v => (d2Pt p v).le r2)
+def Feat.covered (F : Feat) (p : HPt) (r2 m2 : Q) : Bool :=
+  (F.segs.any fun s => s.side.admits s.s.p s.s.q p &&
+    (match d2Slab p s.s m2 true with | some d => d.le r2 | none => false)) ||
+  (F.wedges.any fun w => (d2Pt p w.v).le r2 && w.has p)
 
 /-- no feature of the ideal buffer of radius `√r2` (joins up to `√(fJoin2·r2)`, caps up to `√(fCap2·r2)`) reaches `p` -/
-def Feat.clear (F : Feat) (p : HPt) (r2 fJoin2 fCap2 : Q) : Bool :=
-  (F.segs.all fun s => match d2Slab p s with | some d => r2.le d | none => true) &&
+def Feat.clear (F : Feat) (p : HPt) (r2 m2 fJoin2 fCap2 : Q) : Bool :=
+  (F.segs.all fun s => match d2Slab p s.s m2 false with | some d => r2.le d | none => true) &&
   (F.joinV.all fun v => (qMul fJoin2 r2).le (d2Pt p v)) &&
   (F.capV.all fun v => (qMul fCap2 r2).le (d2Pt p v))
 
 /-- plain squared distance to the linework and points of the input (polygon interiors not considered) -/
 def Feat.dist2 (F : Feat) (p : HPt) : Option Q :=
-  let ds := F.segs.map (d2Seg p) ++ F.verts.map (d2Pt p)
+  let ds := F.segs.map (fun s => d2Seg p s.s) ++ F.verts.map (d2Pt p)
   match ds with
   | [] => none
   | d :: r => some (r.foldl qMin d)
@@ -196,19 +262,19 @@ inductive Verdict where | mustIn | mustOut | free
 deriving DecidableEq, Repr
 
 /-- positive distance: `rIn2 = ((1−e)d)²` (`none` when the inner radius is not positive), `rOut2 = ((1+10⁻⁶)d)²` -/
-def verdictPos (F : Feat) (p : HPt) (rIn2 : Option Q) (rOut2 fJoin2 fCap2 : Q) : Verdict :=
+def verdictPos (F : Feat) (p : HPt) (rIn2 : Option Q) (rOut2 m2 fJoin2 fCap2 : Q) : Verdict :=
   if F.inside p then .mustIn
-  else if (match rIn2 with | some r => F.covered p r | none => false) then .mustIn
-  else if F.clear p rOut2 fJoin2 fCap2 then .mustOut
+  else if (match rIn2 with | some r => F.covered p r m2 | none => false) then .mustIn
+  else if F.clear p rOut2 m2 fJoin2 fCap2 then .mustOut
   else .free
 
 /-- negative distance on polygons (`F = featPolys`): inside and farther than `rOut` from every ring → in;
 outside, or within `rIn` of a ring (`nearOut`, only sound when the polygons do not overlap) → out -/
-def verdictNeg (F : Feat) (p : HPt) (rIn2 : Option Q) (rOut2 fJoin2 : Q) (nearOut : Bool) : Verdict :=
+def verdictNeg (F : Feat) (p : HPt) (rIn2 : Option Q) (rOut2 m2 fJoin2 : Q) (nearOut : Bool) : Verdict :=
   if F.onBoundary p then .mustOut
   else if !F.inside p then .mustOut
-  else if F.clear p rOut2 fJoin2 ⟨1, 1⟩ then .mustIn
-  else if nearOut && (match rIn2 with | some r => F.covered p r | none => false) then .mustOut
+  else if F.clear p rOut2 m2 fJoin2 ⟨1, 1⟩ then .mustIn
+  else if nearOut && (match rIn2 with | some r => F.covered p r m2 | none => false) then .mustOut
   else .free
 
 /-- zero distance: the point set of the polygons (boundary locations are left free) -/
